@@ -113,7 +113,42 @@ ExpandVerdict ==
       dom == InGrammarM(ts) /\ AnnInDom(ts)
   IN IF ~dom THEN [dom |-> FALSE] ELSE [dom |-> TRUE, long |-> Expand(ts)]
 
+(* C07: the writer's output for graph G = [names (node i at position i + 1), edges <<a, b, o>>];        *)
+(* wit[i] = 1-based position in G.names of the i-th node of the graph read back                         *)
+GEdges == {<<e[1], e[2], e[3]>> : e \in ToSet(T.G.edges)}
+ReadBackOK ==
+  LET o == T.obs w == T.wit IN
+  /\ Len(w) = Len(o.nodes) /\ Len(o.nodes) = Len(T.G.names)
+  /\ \A i \in DOMAIN w : w[i] \in DOMAIN T.G.names
+  /\ \A i, j \in DOMAIN w : i # j => w[i] # w[j]
+  /\ \A i \in DOMAIN w : o.nodes[i].name = T.G.names[w[i]]
+  /\ {<<Pair(w[e[1] + 1] - 1, w[e[2] + 1] - 1)[1], Pair(w[e[1] + 1] - 1, w[e[2] + 1] - 1)[2], e[3]>> : e \in ObsEdges(o)} = GEdges
+UniqueNames == \A i, j \in DOMAIN T.G.names : i # j => T.G.names[i] # T.G.names[j]
+PosOfName(nm) == CHOOSE i \in DOMAIN T.G.names : T.G.names[i] = nm
+DenoteIsG ==
+  LET d == Denote(T.toks) IN
+  /\ Fault(d) = ""
+  /\ Len(d.nodes) = Len(T.G.names)
+  /\ \A i \in DOMAIN d.nodes : d.nodes[i].name \in ToSet(T.G.names)
+  /\ {<<Pair(PosOfName(d.nodes[e[1] + 1].name) - 1, PosOfName(d.nodes[e[2] + 1].name) - 1)[1],
+        Pair(PosOfName(d.nodes[e[1] + 1].name) - 1, PosOfName(d.nodes[e[2] + 1].name) - 1)[2], e[3]>> : e \in d.edges} = GEdges
+
+WriteVerdict ==
+  LET ok == T.obs.outcome = "ok"
+      gram == T.tokenizable /\ InGrammar(T.toks)
+  IN [ dom |-> TRUE,
+       written |-> T.written,
+       \* the text is a string of the documented grammar and the reader accepts it
+       C07_InGrammar |-> T.written => gram,
+       C07_ReaderAccepts |-> T.written => ok,
+       \* it reads back to the original graph (names and orders), under the witness
+       C07_ReadBack |-> (T.written /\ ok) => ReadBackOK,
+       \* and it denotes the original graph in the specification (unique names: no witness needed)
+       C07_DenoteIsG |-> (T.written /\ gram /\ UniqueNames) => DenoteIsG,
+       C07_Written |-> T.written ]
+
 Verdict == CASE T.mode = "mult" -> MultVerdict
+             [] T.mode = "write" -> WriteVerdict
              [] T.mode = "expand" -> ExpandVerdict
              [] OTHER -> ReadVerdict
 
